@@ -26,6 +26,59 @@ static void load_factors() {
     g_factors[type][val] = x;
   }
 }
+static const VfUnitType* utype(int nt, int k);
+static bool in_normal_range(int nt, Q v);
+// unit systems (C07 at value level): exact base magnitudes, declared dimensions, consistent unit per (type, system)
+struct SysBase { std::string name; Q L, M, T, H; };
+static std::vector<SysBase> g_sys;
+static std::map<std::string, std::vector<int>> g_dims;                       // type -> 7 exponents
+static std::map<std::string, std::map<std::string, int>> g_consistent;       // type -> system -> unit value
+static void load_systems() {
+  const char* p = std::getenv("VERIF_FACTORS"); if (!p) return;
+  std::ifstream f(std::string(p) + ".systems");
+  std::string tag;
+  while (f >> tag) {
+    if (tag == "BASE") { SysBase b; std::string n[8]; f >> b.name; for (auto& x : n) f >> x; auto fr = [&](int i) { return strtoflt128(n[i].c_str(), nullptr) / strtoflt128(n[i + 1].c_str(), nullptr); }; b.L = fr(0); b.M = fr(2); b.T = fr(4); b.H = fr(6); g_sys.push_back(b); }
+    else if (tag == "DIMS") { std::string t; f >> t; std::vector<int> d(7); for (auto& x : d) f >> x; g_dims[t] = d; }
+    else if (tag == "SYS") { std::string t, s; int v; f >> t >> s >> v; g_consistent[t][s] = v; }
+  }
+}
+static Q ipow(Q b, int e) { Q r = 1; for (int i = 0; i < (e < 0 ? -e : e); i++) r *= b; return e < 0 ? 1 / r : r; }
+// In each system, a value in the consistent unit converts to the standard unit by exactly the product of the system's base units raised to the
+// type's dimension exponents (so that arithmetic on values expressed in one system's units needs no conversion factors) - through the library's
+// own conversion of that unit, in every numeric type.
+static Verdict check_coherence(const Case& c) {
+  const int k = (int)c.i[0], nt = (int)c.i[1]; const LD x = c.r[0];
+  const VfUnitType* U = utype(nt, k);
+  auto di = g_dims.find(U->name); auto ci = g_consistent.find(U->name);
+  if (di == g_dims.end() || ci == g_consistent.end()) return Verdict::skip("no-system-data");
+  if (std::string(U->name) == "Temperature") { Verdict V; V.cls = "temperature-scale-not-a-product-of-base-units"; return V; }   // affine scales: the coherent statement is about intervals (TemperatureDifference)
+  const std::vector<int>& d = di->second;
+  long evals = 0, nontriv = 0;
+  for (auto& S : g_sys) {
+    auto cu = ci->second.find(S.name); if (cu == ci->second.end()) continue;
+    int idx = -1; for (int i = 0; i < U->n; i++) if (U->unit_values[i] == cu->second) idx = i;
+    if (idx < 0 || U->standard < 0) return Verdict::fail(fmt("%s: the consistent unit of system %s is not a declared enumerator", U->name, S.name.c_str()));
+    const Q factor = ipow(S.T, d[0]) * ipow(S.L, d[1]) * ipow(S.M, d[2]) * ipow(S.H, d[4]);
+    const Q exact_to = (Q)x * factor, exact_from = (Q)x / factor;
+    if (in_normal_range(nt, exact_to) && in_normal_range(nt, (Q)x)) {
+      const LD got = U->convert(x, idx, U->standard); evals++; if (factor != 1) nontriv++;
+      const double e = err_ulps(nt, got, exact_to, exact_to);
+      if (x != 0 && !(e <= 4.0)) return Verdict::fail(fmt("%s: %s in the consistent unit %s of system %s is %s in the standard unit; the product of the system's base units to the type's dimension exponents gives %s (%.3g ulp in %s, allowed 4)",
+                                                         U->name, decld(x).c_str(), U->unit_names[idx], S.name.c_str(), decld(got).c_str(), qstr(exact_to).c_str(), e, ntinfo(nt).name));
+    }
+    if (in_normal_range(nt, exact_from) && in_normal_range(nt, (Q)x)) {
+      const LD got = U->convert(x, U->standard, idx); evals++; if (factor != 1) nontriv++;
+      const double e = err_ulps(nt, got, exact_from, exact_from);
+      if (x != 0 && !(e <= 4.0)) return Verdict::fail(fmt("%s: %s in the standard unit is %s in the consistent unit %s of system %s; the base units of the system imply %s (%.3g ulp in %s, allowed 4)",
+                                                         U->name, decld(x).c_str(), decld(got).c_str(), U->unit_names[idx], S.name.c_str(), qstr(exact_from).c_str(), e, ntinfo(nt).name));
+    }
+  }
+  Verdict V; V.sub_evals = evals; V.sub_nontrivial = nontriv; V.nontrivial = nontriv > 0 && x != 0; V.cls = std::string(ntinfo(nt).name) + ";" + real_class(x);
+  if (evals == 0) return Verdict::skip("out-of-range");
+  return V;
+}
+
 static const VfUnitType* utype(int nt, int k) { return nt == 0 ? vf_units_0(k) : nt == 1 ? vf_units_1(k) : vf_units_2(k); }
 
 static const double kTolPair = 8.0;   // two legs, <= 3.01 ulp each measured on the pinned tree (DESIGN 2)
@@ -168,21 +221,25 @@ static rc::Gen<Case> gen_case(int inst, int ntypes) {
   const int k = inst % ntypes, nt = inst / ntypes;
   const VfUnitType* U = utype(nt, k);
   const bool temperature = std::string(U->name) == "Temperature";
-  int lo = nt == 0 ? -60 : nt == 1 ? -400 : -4000, hi = -lo;
+  // "for every sign and magnitude that does not overflow": the whole exponent range of the numeric type (pairs whose standard-unit intermediate
+  // or result leaves the normal range are skipped per pair), with the top and bottom 16 binades over-represented
+  const int lo = ntinfo(nt).emin + 1, hi = ntinfo(nt).emax - 1;
   auto wide = gen_real(nt, lo, hi, kNeg | kZero);
+  auto top = gen_real(nt, hi - 16, hi, kNeg);
+  auto bottom = gen_real(nt, lo, lo + 16, kNeg);
   auto mid = gen_real(nt, -12, 24, kNeg | kZero);
-  rc::Gen<LD> g = rc::gen::oneOf(wide, mid);
+  rc::Gen<LD> g = rc::gen::oneOf(wide, wide, mid, mid, top, bottom);
   if (temperature) {
     // around the zero offsets and absolute zero in each scale
     auto near = rc::gen::map(rc::gen::tuple(rc::gen::element<LD>(-273.15L, -459.67L, 273.15L, 459.67L, 0.0L, 491.67L, 32.0L, 100.0L, 212.0L), gen_real(nt, -30, -1, kNeg | kZero)),
                              [nt](const std::tuple<LD, LD>& t) { return round_to(nt, std::get<0>(t) * (1 + std::get<1>(t))); });
-    g = rc::gen::oneOf(wide, mid, near);
+    g = rc::gen::oneOf(wide, mid, near, top, bottom);
   }
   return rc::gen::map(g, [k, nt](LD x) { Case c; c.i = {k, nt}; c.r = {x}; return c; });
 }
 
 int main(int argc, char** argv) {
-  load_factors();
+  load_factors(); load_systems();
   const int ntypes = vf_units_count_0();
   std::vector<Sub> subs;
   auto iname = [ntypes](int inst) { return std::string(utype(inst / ntypes, inst % ntypes)->name) + "/" + ntinfo(inst / ntypes).name; };
@@ -219,6 +276,13 @@ int main(int argc, char** argv) {
     s.rule = "every unit type x numeric type; generated: container shape (scalar in place, std::array<1..9>, std::vector of 0..17 elements, PlanarVector, Vector, SymmetricDyad, Dyad), form (copying, in-place, compile-time), unit pair and "
              "distinct slot values; oracle: every slot within 1 ulp of (normally bit-equal to) the plain scalar Convert of that slot, the number of values is preserved, copying forms leave their argument bitwise unchanged; "
              "non-trivial: >= 2 distinct slots and from != to";
+    subs.push_back(s);
+  }
+  {
+    Sub s; s.name = "c07.coherence"; s.property = "C07"; s.instances = ntypes * 3; s.n_quick = 60; s.n_thorough = 3000; s.run = check_coherence; s.instance_name = iname;
+    s.gen = [ntypes](int inst) { return gen_case(inst, ntypes); };
+    s.rule = "value level: for every unit type x numeric type and each of the 4 systems, a generated value in the system's consistent unit converts to / from the standard unit (through the library's own conversion) by exactly "
+             "L^a M^b T^c Theta^d of the system's base units (exact rationals from the system's abbreviation, __float128) within 4 ulp; non-trivial: factor != 1 and x != 0";
     subs.push_back(s);
   }
   return engine_main(argc, argv, subs);
